@@ -256,6 +256,44 @@ OPENERS = {"(", "[", ",", ";", "=", "+", "-", "*", "/", "%", "==", "!=",
 CLOSE = {"(": ")", "[": "]", "<<": ">>", "<<<": ">>>", "<*": "*>"}
 
 
+def bracket_literal_paren_variants(tokens):
+    """wrap one complete list, set, map or object literal in redundant
+    parentheses: <<>> !> f() -> (<<>>) !> f().  A `[` counts as the start of
+    a literal only where an expression can start (after an operator, an
+    opening bracket, a separator or at the very beginning)"""
+    n = len(tokens)
+    for k, t in enumerate(tokens):
+        if t not in ("[", "<<", "<<<", "<*"):
+            continue
+        prev = tokens[k - 1] if k > 0 else ";"
+        if prev not in OPENERS and prev not in ("!>", "->"):
+            continue
+        if prev in ("!>", "->"):
+            continue
+        if t == "[" and k + 1 < n:
+            # destructuring targets look like list literals: `[a, b] = ...`,
+            # `def [a, b] = ...`, `for [a, b] in ...`
+            pass
+        depth = 0
+        end = None
+        for j in range(k, n):
+            if tokens[j] in CLOSE:
+                depth += 1
+            elif tokens[j] in CLOSE.values():
+                depth -= 1
+                if depth == 0:
+                    end = j
+                    break
+        if end is None or tokens[end] != CLOSE[t]:
+            continue
+        if end + 1 < n and tokens[end + 1] in ("=", "in") and t == "[":
+            continue          # a destructuring target
+        if k > 0 and tokens[k - 1] in ("def", "for"):
+            continue
+        yield tokens[:k] + ["("] + tokens[k:end + 1] + [")"] + \
+            tokens[end + 1:]
+
+
 def element_paren_variants(tokens):
     """wrap one complete positional call argument or one list-literal
     element in redundant parentheses: f(a + 1, g(x)) -> f((a + 1), g(x))"""
